@@ -302,7 +302,8 @@ def leaf_specs(ctx):
     r = ctx.rng
     q = ctx.quick
     specs = []
-    for m in ([3.0, 0.7] if q else [3.0, 0.7, 1.0, 5.0, 0.05, 12.0, 19.5]):
+    # 20 and 40: tanh(max_val) rounds to exactly 1.0 in float64 (seeded change C18d clipped y to +-tanh(max_val) before arctanh)
+    for m in ([3.0, 0.7, 20.0] if q else [3.0, 0.7, 1.0, 5.0, 0.05, 12.0, 19.5, 20.0, 25.0, 40.0]):
         specs.append(dict(kind="leaky", max_val=fhex(m)))
     splines = [(4, 2.0, 0.0), (2, 2.0, 0.0)]  # initial parameters (identity map): the D1 witness lives here
     n_pert = 3 if q else 40
